@@ -3,6 +3,7 @@ package main
 // SMT back ends: one query per obligation, raced on z3 5.1 (z3-new), z3 4.8.12 and cvc5.
 
 import (
+	"regexp"
 	"bytes"
 	"context"
 	"fmt"
@@ -27,6 +28,66 @@ var solvers = []solverSpec{
 	}},
 }
 
+var declFunRe = regexp.MustCompile(`^\(declare-fun (\S+) \(([^)]*\)?[^)]*)\)`)
+
+// relevantAxioms keeps the axioms that share an uninterpreted function symbol with the obligation's
+// text (transitively). Dropping an axiom only weakens the assumptions, so it can never turn a failing
+// obligation into a passing one; it keeps queries small and lets the solvers produce models.
+func relevantAxioms(fr *FuncResult, text string) []string {
+	var funs []string
+	for _, d := range fr.Decls {
+		if strings.HasPrefix(d, "(declare-fun ") {
+			f := strings.Fields(d[len("(declare-fun "):])[0]
+			if !strings.HasSuffix(d, "() Int)") && !strings.HasSuffix(d, "() Bool)") {
+				funs = append(funs, f)
+			}
+		}
+	}
+	symsOf := func(t string) map[string]bool {
+		m := map[string]bool{}
+		for _, f := range funs {
+			if strings.Contains(t, "("+f+" ") {
+				m[f] = true
+			}
+		}
+		return m
+	}
+	have := symsOf(text)
+	axSyms := make([]map[string]bool, len(fr.Axioms))
+	for i, a := range fr.Axioms {
+		axSyms[i] = symsOf(a)
+	}
+	used := make([]bool, len(fr.Axioms))
+	for changed := true; changed; {
+		changed = false
+		for i := range fr.Axioms {
+			if used[i] {
+				continue
+			}
+			rel := len(axSyms[i]) == 0
+			for f := range axSyms[i] {
+				if have[f] {
+					rel = true
+				}
+			}
+			if rel {
+				used[i] = true
+				changed = true
+				for f := range axSyms[i] {
+					have[f] = true
+				}
+			}
+		}
+	}
+	var out []string
+	for i, a := range fr.Axioms {
+		if used[i] {
+			out = append(out, a)
+		}
+	}
+	return out
+}
+
 func buildQuery(fr *FuncResult, o *Oblig) string {
 	var sb strings.Builder
 	sb.WriteString("(set-option :produce-models true)\n(set-logic ALL)\n")
@@ -34,7 +95,17 @@ func buildQuery(fr *FuncResult, o *Oblig) string {
 		sb.WriteString(d)
 		sb.WriteByte('\n')
 	}
-	for _, a := range fr.Axioms {
+	var tb strings.Builder
+	for _, c := range fr.Cons[:o.NCons] {
+		tb.WriteString(c)
+		tb.WriteByte('\n')
+	}
+	for _, c := range o.Extra {
+		tb.WriteString(c)
+		tb.WriteByte('\n')
+	}
+	tb.WriteString(o.Reach + "\n" + o.Goal)
+	for _, a := range relevantAxioms(fr, tb.String()) {
 		sb.WriteString("(assert " + a + ")\n")
 	}
 	for _, c := range fr.Cons[:o.NCons] {
